@@ -949,6 +949,9 @@ fn gen_fault(rng: &mut Rng, set: &TSet, slot: usize, after: &str, forced: Option
             ("missing-end-tag", "{% for q in arr %}".into(), "{% for q in arr %}".into(), AtOrAfter, Expect::Syntax),
             ("missing-end-tag", "{% filter upper %}é".into(), "{% filter upper %}".into(), AtOrAfter, Expect::Syntax),
             ("missing-end-tag", "{% <ui.nope> %}".into(), "{% <ui.nope> %}".into(), AtOrAfter, Expect::Syntax),
+            ("missing-end-tag", "{% if n %}é{# trailing comment #}".into(), "{% if n %}".into(), AtOrAfter, Expect::Syntax),
+            ("missing-end-tag", "{% <ui.nope> %}x{#- c -#}".into(), "{% <ui.nope> %}".into(), AtOrAfter, Expect::Syntax),
+            ("missing-end-tag", "{% set zq %}{# multi\nline #}".into(), "{% set zq %}".into(), AtOrAfter, Expect::Syntax),
             ("unknown-tag", "{% nosuchtag %}".into(), "nosuchtag".into(), Contains, Expect::Syntax),
             ("unknown-tag", "{%- nosuchtag x=1 -%}".into(), "nosuchtag".into(), Contains, Expect::Syntax),
             ("elif-after-else", "{% if a %}x{% else %}y{% elif n %}z{% endif %}".into(), "elif".into(), Contains, Expect::Syntax),
@@ -2038,6 +2041,23 @@ fn eof_adversarial() -> Vec<String> {
     let prefixes = ["", "é\n", "line\r\n\t", "日本語 😀 ", "\n\n\n"];
     // regression cases of finding F13 (eoi() span: start line/col vs range.start)
     let mut v = vec!["abc {{ a".to_string(), "x\ny {% if a %}\nz".to_string()];
+    // an open construct whose LAST token is a comment (with / without `-` markers, multi-line,
+    // as the only token after the opener), followed by nothing or by whitespace only
+    let openers = [
+        "{% if a %}x", "{% if a %}", "{% for i in arr %}é", "{% block b %}x\n", "{% filter upper %}x", "{% set x %}x", "{% component c() %}x", "{% <c> %}x", "{% if a %}x{% else %}y",
+        "{% if a %}{% elif b %}", "{% for i in arr %}x{% else %}", "{% block b %}{% block c %}x{% endblock %}", "{% raw %}r{% endraw %}{% if a %}",
+    ];
+    let comments = ["{# c #}", "{#- c -#}", "{# multi\nline é #}", "{#- c #}", "{# c -#}", "{##}", "{# a #}{# b #}", "{# 😀 #}"];
+    let trailers = ["", " ", "\n", "\n\t \r\n"];
+    for p in ["", "é\n"] {
+        for o in openers {
+            for c in comments {
+                for t in trailers {
+                    v.push(format!("{p}{o}{c}{t}"));
+                }
+            }
+        }
+    }
     for p in prefixes {
         for c in constructs {
             for e in endings {
@@ -2046,6 +2066,274 @@ fn eof_adversarial() -> Vec<String> {
         }
     }
     v
+}
+
+
+// ------------------------------------------------------------------ special families: deep call chains, huge chunks
+
+/// Cases built outside the piece generator; each family has ONE size parameter so that a failing
+/// case shrinks by searching the smallest failing parameter.
+#[derive(Clone, Debug)]
+enum Special {
+    /// call chain of `depth` enclosing call sites; kind 0 = includes only, 1 = nested components,
+    /// 2 = one recursive component, 3 = include / component alternating; `caps` = some of the sites
+    /// sit inside output captures
+    Deep { kind: u8, depth: usize, caps: bool, fault: usize },
+    /// `lines` repetitions of a one-expression line, then the fault: the fault (or the failing
+    /// include / component call) sits at a high instruction index of ONE chunk;
+    /// chunk 0 = template body, 1 = a block body, 2 = a component body;
+    /// fault 0 = undefined variable, 1 = bad operand, 2 = failing include, 3 = failing component call
+    Large { chunk: u8, fault: u8, lines: usize },
+}
+
+const DEEP_FAULTS: [(&str, &str, &str); 3] = [("div-zero", "1 / 0", "0"), ("bad-operand", "\"é\" + 1", "\"é\""), ("undefined-var", "nosuchvar", "nosuchvar")];
+
+fn deep_case(kind: u8, depth: usize, caps: bool, fault: usize) -> Case {
+    let (class, fexpr, ftok) = DEEP_FAULTS[fault % DEEP_FAULTS.len()];
+    let fault_body = format!("x é\n\t{{{{ {fexpr} }}}}");
+    let f_off = fault_body.find("{{").unwrap();
+    let f_tok = fault_body.find(ftok).unwrap();
+    let mut need_wrap = false;
+    let mut wrap = |s: usize, call: String| -> (String, usize, &'static str) {
+        let (cap, open, close): (&'static str, &str, &str) = if !caps {
+            ("", "", "")
+        } else {
+            match s % 5 {
+                1 => ("filter", "{% filter upper %}", "{% endfilter %}"),
+                2 => ("set", "{% set capq %}", "{% endset %}{{ capq }}"),
+                3 => ("body", "{% <wrapq> %}", "{% </wrapq> %}"),
+                4 => ("filter+set", "{% filter trim %}é{% set capq %}", "{% endset %}{{ capq }}{% endfilter %}"),
+                _ => ("", "", ""),
+            }
+        };
+        if cap == "body" {
+            need_wrap = true;
+        }
+        let pre = format!("{}{}", "é line\n".repeat(s % 3), ["", "日本 ", "\t"][s % 3]);
+        (format!("{pre}{open}{call}{close}\n tail é\n"), pre.len() + open.len(), cap)
+    };
+    let mut templates: Vec<(String, String)> = Vec::new();
+    let mut chain: Vec<(String, usize)> = Vec::new();
+    let mut chain_caps: Vec<String> = Vec::new();
+    let host;
+    let planted;
+    let tok;
+    let entry = "deep/t0.html".to_string();
+    if kind == 2 {
+        // one recursive component: the same call site once per level
+        let comps = "deep/rec.html".to_string();
+        let head = "{# recursive é #}\n{% component rec(k) %}\n{% if k > 0 %}é ";
+        let call = "{{ <rec k={k - 1} /> }}";
+        let mid = "{% else %}";
+        let src = format!("{head}{call}{mid}{fault_body}{{% endif %}}\n{{% endcomponent rec %}}");
+        let site = head.len() + 3;
+        let fb = head.len() + call.len() + mid.len();
+        let (body, a, cap) = wrap(0, format!("{{{{ <rec k={{{}}} /> }}}}", depth - 1));
+        for _ in 0..depth - 1 {
+            chain.push((comps.clone(), site));
+            chain_caps.push(String::new());
+        }
+        chain.push((entry.clone(), a + 3));
+        chain_caps.push(cap.to_string());
+        templates.push((entry.clone(), body));
+        templates.push((comps.clone(), src));
+        host = comps;
+        planted = fb + f_off..fb + fault_body.len();
+        tok = fb + f_tok..fb + f_tok + ftok.len();
+    } else {
+        // holders h_0 .. h_depth; h_s (s < depth) holds the call to h_{s+1}, h_depth the fault
+        let is_comp = |s: usize| match kind {
+            0 => false,
+            1 => s >= 1,
+            _ => s >= 2 && s % 2 == 0,
+        };
+        let name = |s: usize| if is_comp(s) { format!("dk{s}") } else { format!("deep/t{s}.html") };
+        let comps = "deep/comps.html".to_string();
+        let mut comps_src = String::from("{# components of the deep chain é #}\n");
+        let mut sites: Vec<(String, usize, String)> = Vec::new();
+        let mut host_v = (String::new(), 0usize);
+        for s in 0..=depth {
+            let (body, anchor, cap) = if s < depth {
+                let callee = name(s + 1);
+                if is_comp(s + 1) {
+                    let (b, a, c) = wrap(s, format!("{{{{ <{callee} /> }}}}"));
+                    (b, a + 3, c)
+                } else {
+                    let (b, a, c) = wrap(s, format!("{{% include \"{callee}\" %}}"));
+                    (b, a + 11, c)
+                }
+            } else {
+                (fault_body.clone(), 0, "")
+            };
+            let (file, base) = if is_comp(s) {
+                let n = name(s);
+                comps_src.push_str(&format!("{{% component {n}() %}}"));
+                let base = comps_src.len();
+                comps_src.push_str(&body);
+                comps_src.push_str(&format!("{{% endcomponent {n} %}}\n"));
+                (comps.clone(), base)
+            } else {
+                templates.push((name(s), body.clone()));
+                (name(s), 0)
+            };
+            if s < depth {
+                sites.push((file, base + anchor, cap.to_string()));
+            } else {
+                host_v = (file, base);
+            }
+        }
+        if (0..=depth).any(is_comp) {
+            templates.push((comps, comps_src));
+        }
+        for (f, o, c) in sites.into_iter().rev() {
+            chain.push((f, o));
+            chain_caps.push(c);
+        }
+        host = host_v.0;
+        planted = host_v.1 + f_off..host_v.1 + fault_body.len();
+        tok = host_v.1 + f_tok..host_v.1 + f_tok + ftok.len();
+    }
+    if need_wrap {
+        templates.push(("deep/wrap.html".to_string(), "{% component wrapq() %}<w>{{ body }}</w>{% endcomponent wrapq %}".to_string()));
+    }
+    Case {
+        templates,
+        entry,
+        context: base_context(),
+        class: class.to_string(),
+        expect: Expect::Render,
+        cover: Cover::Contains,
+        host,
+        planted,
+        tok,
+        chain,
+        chain_caps,
+        role: format!("deep-{}", ["include-chain", "nested-components", "recursive-component", "alternating"][kind as usize % 4]),
+        direct_component: None,
+        adds: vec![],
+        history: String::new(),
+    }
+}
+
+const BIG_LINE: &str = "{{ n }}\n";
+
+fn large_case(chunk: u8, fault: u8, lines: usize) -> Case {
+    let (class, ftext, ftok): (&str, &str, &str) = match fault {
+        0 => ("undefined-var", "é {{ nosuchvar }}", "nosuchvar"),
+        1 => ("bad-operand", "\t{{ 2 * \"é\" }}", "\"é\""),
+        2 => ("div-zero", "日本 {% include \"large/bad.html\" %}", "\"large/bad.html\""),
+        _ => ("div-zero", "é {{ <badc /> }}", "<badc />"),
+    };
+    let (head, tail, big_name): (&str, &str, &str) = match chunk {
+        0 => ("", "\nend", "large/page.html"),
+        1 => ("top {{ n }}\n{% block big %}", "\n{% endblock big %}\nend", "large/page.html"),
+        _ => ("{# é #}\n{% component bigc(n = 5) %}", "\n{% endcomponent bigc %}", "large/comps.html"),
+    };
+    let mut src = String::with_capacity(head.len() + lines * BIG_LINE.len() + 64);
+    src.push_str(head);
+    for _ in 0..lines {
+        src.push_str(BIG_LINE);
+    }
+    let f0 = src.len();
+    src.push_str(ftext);
+    src.push_str(tail);
+    let t0 = f0 + ftext.find(ftok).unwrap();
+    let mut templates = vec![(big_name.to_string(), src)];
+    let mut chain: Vec<(String, usize)> = Vec::new();
+    let mut host = big_name.to_string();
+    let mut planted = f0 + ftext.find('{').unwrap()..f0 + ftext.len();
+    let mut tok = t0..t0 + ftok.len();
+    if fault == 2 {
+        let b = "x\n {{ 1 / 0 }}";
+        templates.push(("large/bad.html".to_string(), b.to_string()));
+        host = "large/bad.html".into();
+        planted = b.find("{{").unwrap()..b.len();
+        tok = b.find('0').unwrap()..b.find('0').unwrap() + 1;
+        chain.push((big_name.to_string(), t0));
+    } else if fault == 3 {
+        let b = "{% component badc() %}\n {{ 1 / 0 }}{% endcomponent badc %}";
+        templates.push(("large/badc.html".to_string(), b.to_string()));
+        host = "large/badc.html".into();
+        planted = b.find("{{").unwrap()..b.find("}}").unwrap() + 2;
+        tok = b.find("0 }}").unwrap()..b.find("0 }}").unwrap() + 1;
+        chain.push((big_name.to_string(), t0));
+    }
+    let mut entry = big_name.to_string();
+    if chunk == 2 {
+        entry = "large/entry.html".to_string();
+        templates.push((entry.clone(), "é\n{{ <bigc /> }}".to_string()));
+        chain.push((entry.clone(), 6));
+    }
+    let n = chain.len();
+    Case {
+        templates,
+        entry,
+        context: base_context(),
+        class: class.to_string(),
+        expect: Expect::Render,
+        cover: Cover::Contains,
+        host,
+        planted,
+        tok,
+        chain,
+        chain_caps: vec![String::new(); n],
+        role: format!("large-{}", ["template-body", "block-body", "component-body"][chunk as usize % 3]),
+        direct_component: None,
+        adds: vec![],
+        history: String::new(),
+    }
+}
+
+fn special_case(sp: &Special) -> Case {
+    match sp {
+        Special::Deep { kind, depth, caps, fault } => deep_case(*kind, *depth, *caps, *fault),
+        Special::Large { chunk, fault, lines } => large_case(*chunk, *fault, *lines),
+    }
+}
+
+/// Instructions one `BIG_LINE` compiles to (measured on the stored, optimised chunk).
+fn instr_per_line() -> Option<usize> {
+    let len_of = |k: usize| -> Option<usize> {
+        let mut tera = Tera::default();
+        tera.add_raw_templates(vec![("m", BIG_LINE.repeat(k))]).ok()?;
+        let chunks = tera::verif_hooks::stored_chunks_wire(&tera, "m")?;
+        chunks.iter().find(|c| c.0 == "main").map(|c| c.1.len())
+    };
+    let (a, b) = (len_of(20)?, len_of(40)?);
+    (b > a).then(|| (b - a) / 20).filter(|p| *p > 0)
+}
+
+/// Smallest size parameter of the same family on which the first failing check still fails.
+fn shrink_special(sp: &Special, sig: &str, perturb: bool) -> Special {
+    let fails = |x: &Special| -> bool {
+        let c = special_case(x);
+        let o = observe_case(&c);
+        oracle(&c, &o, perturb).fails.first().map(|f| f.0.as_str()) == Some(sig)
+    };
+    match sp {
+        Special::Deep { kind, depth, caps, fault } => {
+            for d in 1..*depth {
+                let x = Special::Deep { kind: *kind, depth: d, caps: *caps, fault: *fault };
+                if fails(&x) {
+                    return x;
+                }
+            }
+            sp.clone()
+        }
+        Special::Large { chunk, fault, lines } => {
+            // failing is monotone in the size here: binary search
+            let (mut lo, mut hi) = (0usize, *lines);
+            while lo < hi {
+                let mid = (lo + hi) / 2;
+                if fails(&Special::Large { chunk: *chunk, fault: *fault, lines: mid }) {
+                    hi = mid;
+                } else {
+                    lo = mid + 1;
+                }
+            }
+            Special::Large { chunk: *chunk, fault: *fault, lines: hi }
+        }
+    }
 }
 
 // ------------------------------------------------------------------ which syntax-error sites were reached
@@ -2324,6 +2612,7 @@ fn main() {
                 report.count(&format!("notes.{}", v.notes));
                 report.count(&format!("chain-depth.{}", c.chain.len()));
                 if d.obs.kind == "Rendering" {
+                    report.count(&format!("callsite.depth.{}", c.chain.len()));
                     for cap in &c.chain_caps {
                         report.count(&format!("callsite.{}", if cap.is_empty() { "plain".to_string() } else { format!("in-capture.{cap}") }));
                     }
@@ -2389,10 +2678,12 @@ fn main() {
             let d0 = D::default();
             if let Some(hs) = c.src_of(&c.host) {
                 reqs.push(ModelReq { stage: "lex-spans", req: lexwire::lex_request(false, &d0, hs), imp: lexwire::canon_tokens(hs, &d0, false), case: ci, what: c.host.clone() });
+                reqs.push(ModelReq { stage: "lex-spans-filtered", req: lexwire::lex_request(true, &d0, hs), imp: lexwire::canon_tokens(hs, &d0, true), case: ci, what: c.host.clone() });
             }
             if ci % 8 == 0 {
                 for (n, s) in &d.valid_sources {
                     reqs.push(ModelReq { stage: "lex-spans", req: lexwire::lex_request(false, &d0, s), imp: lexwire::canon_tokens(s, &d0, false), case: ci, what: format!("{n} (before planting)") });
+                    reqs.push(ModelReq { stage: "lex-spans-filtered", req: lexwire::lex_request(true, &d0, s), imp: lexwire::canon_tokens(s, &d0, true), case: ci, what: format!("{n} (before planting)") });
                 }
             }
             if ci % 40 == 0 {
@@ -2420,7 +2711,7 @@ fn main() {
                     for (r, ans) in reqs.iter().zip(answers.iter()) {
                         report.model_comparisons += 1;
                         report.count(&format!("model.{}", r.stage));
-                        let same = if r.stage == "lex-spans" { lexwire::same_answer(ans, &r.imp) } else { same_report_answer(ans, &r.imp) };
+                        let same = if r.stage.starts_with("lex-spans") { lexwire::same_answer(ans, &r.imp) } else { same_report_answer(ans, &r.imp) };
                         if same {
                             continue;
                         }
@@ -2461,7 +2752,7 @@ fn main() {
                                 rj["source_of"] = json!(r.what);
                                 rj["model"] = json!(ans.chars().take(4000).collect::<String>());
                                 rj["implementation"] = json!(r.imp.chars().take(4000).collect::<String>());
-                                if r.stage == "lex-spans" {
+                                if r.stage.starts_with("lex-spans") {
                                     let (mt, me) = lexwire::parse_answer(ans);
                                     let (it, ie) = lexwire::parse_answer(&r.imp);
                                     let k = mt.iter().zip(it.iter()).position(|(a, b)| a != b).unwrap_or(mt.len().min(it.len()));
@@ -2528,6 +2819,7 @@ fn main() {
             }
             let d0 = D::default();
             reqs.push(("lex-spans", lexwire::lex_request(false, &d0, src), lexwire::canon_tokens(src, &d0, false), i));
+            reqs.push(("lex-spans-filtered", lexwire::lex_request(true, &d0, src), lexwire::canon_tokens(src, &d0, true), i));
             if let (Some(sp), Some(imp)) = (obs.span, report_answer_of(&obs)) {
                 reqs.push(("report-line", report_request(src, &sp), imp, i));
             }
@@ -2543,7 +2835,7 @@ fn main() {
                     for (r, ans) in reqs.iter().zip(answers.iter()) {
                         report.model_comparisons += 1;
                         report.count(&format!("model.{}", r.0));
-                        let same = if r.0 == "lex-spans" { lexwire::same_answer(ans, &r.2) } else { same_report_answer(ans, &r.2) };
+                        let same = if r.0.starts_with("lex-spans") { lexwire::same_answer(ans, &r.2) } else { same_report_answer(ans, &r.2) };
                         if !same {
                             report.model_disagreements += 1;
                             report.count(&format!("model-disagree.{}", r.0));
@@ -2559,6 +2851,143 @@ fn main() {
                                            "expected": {"filename": "t", "call_sites_innermost_first": []}, "role": "entry",
                                            "request": r.1, "model": ans, "implementation": r.2}),
                                 );
+                            }
+                        }
+                    }
+                }
+            }
+        }
+    }
+
+    // ---- special families: call chains 9-16 deep, faults at instruction index >= 65536 of a chunk
+    {
+        let mut specials: Vec<Special> = Vec::new();
+        for (i, depth) in [9usize, 10, 12, 16].into_iter().enumerate() {
+            for kind in 0..4u8 {
+                specials.push(Special::Deep { kind, depth, caps: (i + kind as usize) % 2 == 0, fault: i + kind as usize });
+            }
+        }
+        let mut srng = master.fork();
+        for _ in 0..env.budget(40, 1500) {
+            specials.push(Special::Deep { kind: srng.below(4) as u8, depth: 1 + srng.below(16), caps: srng.chance(1, 2), fault: srng.below(3) });
+        }
+        match instr_per_line() {
+            None => report.notes.push("large-template cases skipped: instructions per line could not be measured".into()),
+            Some(p) => {
+                report.count_n("large.instructions-per-line", p as u64);
+                let n0 = 65536 / p;
+                for fault in 0..4u8 {
+                    specials.push(Special::Large { chunk: 0, fault, lines: n0 + 2 });
+                }
+                for lines in [n0 - 2, n0 - 1, n0, n0 + 1, n0 + 3000] {
+                    specials.push(Special::Large { chunk: 0, fault: 0, lines });
+                }
+                for fault in [0u8, 2] {
+                    specials.push(Special::Large { chunk: 1, fault, lines: n0 + 2 });
+                }
+                for fault in [1u8, 3] {
+                    specials.push(Special::Large { chunk: 2, fault, lines: n0 + 2 });
+                }
+                if !env.quick() {
+                    for mult in [2usize, 3] {
+                        for chunk in 0..3u8 {
+                            for fault in 0..4u8 {
+                                specials.push(Special::Large { chunk, fault, lines: mult * n0 + 2 + srng.below(50) });
+                            }
+                        }
+                    }
+                    for d in 0..8usize {
+                        specials.push(Special::Large { chunk: (d % 3) as u8, fault: (d % 4) as u8, lines: n0 - 4 + d });
+                    }
+                }
+            }
+        }
+        let idx: Vec<u64> = (0..specials.len() as u64).collect();
+        let results: Vec<(Case, Obs, Verdict)> = par_map(&idx, threads, |i| {
+            let c = special_case(&specials[i as usize]);
+            let o = observe_case(&c);
+            let v = oracle(&c, &o, perturb);
+            (c, o, v)
+        });
+        let mut reqs: Vec<ModelReq> = Vec::new();
+        for (i, (c, o, v)) in results.iter().enumerate() {
+            report.evaluations += 1;
+            report.oracle_checks += v.checks;
+            report.oracle_failures += v.fails.len() as u64;
+            report.count(&format!("role.{}", c.role));
+            report.count(&format!("class.{}", c.class));
+            let kind = if o.outcome == "err" { o.kind.clone() } else { o.outcome.to_string() };
+            report.count(&format!("special.{}.{}", c.role, kind));
+            if o.kind == "Rendering" {
+                report.count(&format!("callsite.depth.{}", c.chain.len()));
+                for cap in &c.chain_caps {
+                    report.count(&format!("callsite.{}", if cap.is_empty() { "plain".to_string() } else { format!("in-capture.{cap}") }));
+                }
+            }
+            if let Special::Large { lines, .. } = &specials[i] {
+                report.count(&format!("large.lines.{lines}"));
+            }
+            if v.complete && distinct.insert(case_hash(c)) {
+                report.distinct_nontrivial += 1;
+            }
+            if let Some(f) = v.fails.first() {
+                report.count(&format!("oracle-fail.{}", f.0));
+                if prop_sigs.len() < 14 && prop_sigs.insert(format!("special|{}|{}", c.role, f.0)) {
+                    let small_sp = shrink_special(&specials[i], &f.0, perturb);
+                    let small = special_case(&small_sp);
+                    let so = observe_case(&small);
+                    let sv = oracle(&small, &so, perturb);
+                    let mut rj = small.to_json();
+                    // a huge source is stored as (line, repetitions) would not replay: keep it whole
+                    rj["family"] = json!(format!("{small_sp:?}"));
+                    rj["observed"] = json!({"stage": so.stage, "outcome": so.outcome, "kind": so.kind, "filename": so.filename, "span": so.span, "panic": so.panic_msg,
+                        "display": so.display.as_ref().map(|x| match x { Ok(s) => s.chars().take(3000).collect::<String>(), Err(p) => format!("PANIC {p}") })});
+                    rj["oracle_failures"] = json!(sv.fails.iter().map(|f| format!("{}: {}", f.0, f.1)).collect::<Vec<_>>());
+                    let first = sv.fails.first().unwrap_or(f);
+                    report.violation("property", format!("{small_sp:?}: fault `{}` in `{}` under {} call sites: {}: {}", small.class, small.host, small.chain.len(), first.0, first.1).chars().take(600).collect(), rj);
+                }
+            }
+            // model comparison: not for the huge sources (hex lines of > 1 MB)
+            let d0 = D::default();
+            for (n, s) in &c.templates {
+                if s.len() <= 20_000 && (i % 4 == 0 || *n == c.host) {
+                    reqs.push(ModelReq { stage: "lex-spans", req: lexwire::lex_request(false, &d0, s), imp: lexwire::canon_tokens(s, &d0, false), case: i, what: n.clone() });
+                    reqs.push(ModelReq { stage: "lex-spans-filtered", req: lexwire::lex_request(true, &d0, s), imp: lexwire::canon_tokens(s, &d0, true), case: i, what: n.clone() });
+                }
+            }
+            if let (Some(sp), Some(src)) = (o.span, c.src_of(&o.filename)) {
+                if src.len() <= 20_000 {
+                    if let Some(imp) = report_answer_of(o) {
+                        reqs.push(ModelReq { stage: "report-line", req: report_request(src, &sp), imp, case: i, what: o.filename.clone() });
+                    }
+                }
+            }
+        }
+        if driver_ok && !reqs.is_empty() {
+            let lines: Vec<String> = reqs.iter().map(|r| r.req.clone()).collect();
+            match driver::run_batch_parallel(&exe, &lines, threads) {
+                Err(e) => {
+                    report.notes.push(format!("model driver failed: {e}"));
+                    report.violation("model-mismatch", format!("model driver could not be run: {e}"), json!({"stage": "driver", "error": e}));
+                }
+                Ok(answers) => {
+                    for (r, ans) in reqs.iter().zip(answers.iter()) {
+                        report.model_comparisons += 1;
+                        report.count(&format!("model.{}", r.stage));
+                        let same = if r.stage.starts_with("lex-spans") { lexwire::same_answer(ans, &r.imp) } else { same_report_answer(ans, &r.imp) };
+                        if !same {
+                            report.model_disagreements += 1;
+                            report.count(&format!("model-disagree.{}", r.stage));
+                            if mismatch_reported < 6 && results[r.case].2.fails.is_empty() {
+                                mismatch_reported += 1;
+                                // the family was run at every size of interest with the direct oracle:
+                                // that is the burst for these cases
+                                let mut rj = results[r.case].0.to_json();
+                                rj["stage"] = json!(r.stage);
+                                rj["source_of"] = json!(r.what);
+                                rj["model"] = json!(ans.chars().take(4000).collect::<String>());
+                                rj["implementation"] = json!(r.imp.chars().take(4000).collect::<String>());
+                                report.violation("model-mismatch", format!("{}: model and implementation differ on `{}` of a {} case", r.stage, r.what, results[r.case].0.role), rj);
                             }
                         }
                     }
